@@ -7,7 +7,7 @@ objects and prints each complete behaviour (INVARIANT Export) for the replay.
 import os
 
 D = os.path.join(os.path.dirname(os.path.dirname(os.path.abspath(__file__))), "specs", "wire")
-INVS = ["TypeOK", "LenFieldOK", "ConsumedOK", "Lossless", "Stable", "Fresh", "Mult8"]
+INVS = ["TypeOK", "LenFieldOK", "ConsumedOK", "Lossless", "Stable", "Idempotent", "Fresh", "Mult8"]
 
 OF = "TopKindsOF"
 # run name -> (Cases expression, Around)
@@ -25,6 +25,7 @@ RUNS = {
     "q_mod": ("Modified(0) \\cup NXModified(0)", "AroundOne"),
     "q_nx": ("NXDeviations(TopKindsNX) \\cup NXShapes({0, 1, 2, 3, 4, 5})", "AroundOne"),
     "q_nxm": ("NXEntries(0) \\cup NXRegs(0)", "AroundOne"),
+    "q_recv": ("{}", "AroundOne", "Received({33, 63})"),
     # thorough tier (in addition)
     "t_pairs": ("Pairs(%s)" % OF, "AroundOne"),
     "t_shapes": ("Payloads(0..40 \\cup {63, 64, 65, 127, 128, 129, 255, 256, 257, 1023, 1024, 1498, 1499, 1500}) "
@@ -33,29 +34,32 @@ RUNS = {
     "t_match_other": ('UNION {MatchIn(k, MFlagsAll(0) \\cup MBits(BitsT) \\cup MTypes(0) \\cup MVals(0), "t") : '
                       'k \\in MatchKinds \\ {"flow_mod"}}', "AroundOne"),
     "t_long": ("Longest(0)", "AroundOne"),
+    "t_recv": ("{}", "AroundBoth", "Received({32, 33, 40, 62, 63})"),
     "t_nx": ("NXPairs(TopKindsNX) \\cup NXShapes(0..9) \\cup NXEntriesT(0)", "AroundOne"),
 }
 
 
 def main():
-  for name, (cases, around) in RUNS.items():
+  for name, run in RUNS.items():
+    cases, around = run[0], run[1]
+    rcases = run[2] if len(run) > 2 else "{}"
     with open(os.path.join(D, "MC_%s.tla" % name), "w") as f:
-      f.write("---- MODULE MC_%s ----\nEXTENDS MCOFWire\nTheCases == %s\nTheAround == %s\n====\n"
-              % (name, cases, around))
-    lines = ["CONSTANTS", "  Cases <- TheCases", "  Around <- TheAround", "INIT Init", "NEXT Next"]
+      f.write("---- MODULE MC_%s ----\nEXTENDS MCOFWire\nTheCases == %s\nTheRCases == %s\nTheAround == %s\n====\n"
+              % (name, cases, rcases, around))
+    lines = ["CONSTANTS", "  Cases <- TheCases", "  RCases <- TheRCases", "  Around <- TheAround", "INIT Init", "NEXT Next"]
     lines += ["INVARIANT %s" % i for i in INVS]
     lines += ["INVARIANT Export", "CHECK_DEADLOCK FALSE"]
     with open(os.path.join(D, "MC_%s.cfg" % name), "w") as f:
       f.write("\n".join(lines) + "\n")
   # layout export for the adapter
   with open(os.path.join(D, "MC_layout.tla"), "w") as f:
-    f.write("---- MODULE MC_layout ----\nEXTENDS MCOFWire\nTheCases == {}\nTheAround == {}\n"
+    f.write("---- MODULE MC_layout ----\nEXTENDS MCOFWire\nTheCases == {}\nTheRCases == {}\nTheAround == {}\n"
             "ASSUME PrintT(<<\"L\", ToJson(Layout)>>)\n"
             "ASSUME PrintT(<<\"N\", ToJson([fields |-> NxmFields, maskable |-> NxmMaskable])>>)\n====\n")
   with open(os.path.join(D, "MC_layout.cfg"), "w") as f:
-    f.write("CONSTANTS\n  Cases <- TheCases\n  Around <- TheAround\nINIT Init\nNEXT Next\nCHECK_DEADLOCK FALSE\n")
+    f.write("CONSTANTS\n  Cases <- TheCases\n  RCases <- TheRCases\n  Around <- TheAround\nINIT Init\nNEXT Next\nCHECK_DEADLOCK FALSE\n")
   # trace validation (code -> spec)
-  lines = ["CONSTANTS", "  Cases <- MCNoCases", "  Around <- AroundBoth", "INIT TrInit", "NEXT TrNext",
+  lines = ["CONSTANTS", "  Cases <- MCNoCases", "  RCases <- MCNoCases", "  Around <- AroundBoth", "INIT TrInit", "NEXT TrNext",
            "CONSTRAINT Progress", "POSTCONDITION Accepted"]
   lines += ["INVARIANT %s" % i for i in INVS]
   lines += ["CHECK_DEADLOCK FALSE"]
